@@ -64,6 +64,25 @@ class Folder:
                 return l + r
             except TypeError:
                 self.err(e, "operands")
+        if isinstance(e, ast.BoolOp):
+            v = None
+            for x in e.values:
+                try:
+                    v = self.ev(x, local)
+                except (KeyError, NotFoldable):
+                    if isinstance(e.op, ast.Or):
+                        continue
+                    raise
+                if isinstance(e.op, ast.Or) and v:
+                    return v
+                if isinstance(e.op, ast.And) and not v:
+                    return v
+            return v
+        if isinstance(e, ast.Call) and isinstance(e.func, ast.Attribute) and e.func.attr == "get" and e.args:
+            o = self.ev(e.func.value, local)
+            if isinstance(o, dict):
+                k = self.ev(e.args[0], local)
+                return o.get(k, self.ev(e.args[1], local) if len(e.args) > 1 else None)
         if isinstance(e, ast.GeneratorExp):
             e = ast.ListComp(elt=e.elt, generators=e.generators)
         if isinstance(e, ast.Call) and isinstance(e.func, ast.Attribute) and e.func.attr in ("upper", "lower", "title", "capitalize") and not e.args:
